@@ -38,29 +38,29 @@ func pointerLike(t types.Type) bool {
 
 // reviewed external callees that are safe to call with shared arguments (read-only on them or internally synchronised)
 var threadSafeExternal = map[string]string{
-	"golang.org/x/exp/mmap.ReaderAt.ReadAt":                  "reads the mapping; documented safe for concurrent use",
-	"golang.org/x/exp/mmap.ReaderAt.Len":                     "read-only",
-	"github.com/steakknife/bloomfilter.Filter.Contains":      "takes the filter's RWMutex in read mode",
-	"capnproto.org/go/capnp/v3/exp/bufferpool.Pool.Get":      "sync.Pool buckets",
-	"capnproto.org/go/capnp/v3/exp/bufferpool.Pool.Put":      "sync.Pool buckets",
-	"bytes.Compare":                                          "read-only",
-	"bytes.Equal":                                            "read-only",
-	"bytes.NewReader":                                        "wraps the slice read-only",
-	"errors.Is":                                              "read-only",
-	"errors.As":                                              "read-only",
-	"errors.Join":                                            "read-only",
-	"fmt.Errorf":                                             "formats its arguments",
-	"fmt.Sprintf":                                            "formats its arguments",
-	"encoding/binary.littleEndian.Uint32":                    "read-only",
-	"encoding/binary.littleEndian.Uint64":                    "read-only",
-	"io.Writer.Write":                                        "hash writers created in the call are private; the argument is only read",
-	"hash.Hash.Write":                                        "argument is only read",
-	"golang.org/x/exp/slices.BinarySearchFunc":               "read-only search",
-	"slices.BinarySearchFunc":                                "read-only search",
-	"golang.org/x/exp/slices.IndexFunc":                      "read-only search",
-	"github.com/golang/snappy.Decode":                        "reads src, writes the private dst",
-	"github.com/golang/snappy.DecodedLen":                    "read-only",
-	"google.golang.org/protobuf/proto.Unmarshal":             "reads the bytes, writes the caller-supplied message",
+	"golang.org/x/exp/mmap.ReaderAt.ReadAt":             "reads the mapping; documented safe for concurrent use",
+	"golang.org/x/exp/mmap.ReaderAt.Len":                "read-only",
+	"github.com/steakknife/bloomfilter.Filter.Contains": "takes the filter's RWMutex in read mode",
+	"capnproto.org/go/capnp/v3/exp/bufferpool.Pool.Get": "sync.Pool buckets",
+	"capnproto.org/go/capnp/v3/exp/bufferpool.Pool.Put": "sync.Pool buckets",
+	"bytes.Compare":                       "read-only",
+	"bytes.Equal":                         "read-only",
+	"bytes.NewReader":                     "wraps the slice read-only",
+	"errors.Is":                           "read-only",
+	"errors.As":                           "read-only",
+	"errors.Join":                         "read-only",
+	"fmt.Errorf":                          "formats its arguments",
+	"fmt.Sprintf":                         "formats its arguments",
+	"encoding/binary.littleEndian.Uint32": "read-only",
+	"encoding/binary.littleEndian.Uint64": "read-only",
+	"io.Writer.Write":                     "hash writers created in the call are private; the argument is only read",
+	"hash.Hash.Write":                     "argument is only read",
+	"golang.org/x/exp/slices.BinarySearchFunc":                    "read-only search",
+	"slices.BinarySearchFunc":                                     "read-only search",
+	"golang.org/x/exp/slices.IndexFunc":                           "read-only search",
+	"github.com/golang/snappy.Decode":                             "reads src, writes the private dst",
+	"github.com/golang/snappy.DecodedLen":                         "read-only",
+	"google.golang.org/protobuf/proto.Unmarshal":                  "reads the bytes, writes the caller-supplied message",
 	"google.golang.org/protobuf/proto.UnmarshalOptions.Unmarshal": "reads the options and bytes, writes the caller-supplied message",
 }
 
